@@ -50,7 +50,8 @@ type c12cmd struct {
 	done bool
 }
 
-var c12boxes = []string{"Alpha", "Bravo", "Charlie", "Delta", "Echo", "Foxtrot"}
+// (mailbox names are case-sensitive except INBOX: "alpha" and "Alpha" are two mailboxes)
+var c12boxes = []string{"Alpha", "Bravo", "Charlie", "Delta", "Echo", "Foxtrot", "alpha", "BRAVO", "charlie"}
 
 func genC12Round(t *simrt.Tape, syncLiterals bool) []*c12cmd {
 	n := 1 + t.Choose(6)
